@@ -11,7 +11,7 @@
 """
 import pulp
 
-from core import call_timed, Result, call, parallel_map
+from core import history_probe, call_timed, Result, call, parallel_map
 from gen import g1
 from corr.c01 import component_sizes, stems_of
 
@@ -118,6 +118,11 @@ def clique_score(lengths, levels):
     return sum(L if lv == 0 else -lv * L for L, lv in zip(lengths, levels))
 
 
+def real_plain(case):
+    o = real(case)
+    return {k: o[k] for k in ("spy", "opt", "fcfs")}
+
+
 def build_inputs(ctx):
     rng = ctx.rng
     inputs = [("hand", c) for c in g1.handmade()] + [("corpus:" + n, c) for n, c in g1.corpus()]
@@ -157,6 +162,7 @@ def run(ctx):
     inputs, nmax = build_inputs(ctx)
     res.dist["exhaustive_nmax"] = nmax
     outs = parallel_map(real, [c for _, c, _ in inputs])
+    history_probe(ctx, res, real_plain, [c for _, c, _ in inputs], "convert")
     reqs, idx = [], []
     for ci, ((tag, (seq, pairs), sizes), o) in enumerate(zip(inputs, outs)):
         ps = g1.pstr(pairs)
